@@ -200,3 +200,55 @@ def run(ctx, facts, entries, table, label, min_sites=1, scope=None):
     ctx.floor("%s|reachable-functions" % label, len(reach), 3, "functions reachable from the entry set")
     ctx.floor("%s|sites" % label, len(sites), min_sites, "panic-capable sites in reachable functions")
     return {"reachable_functions": len(reach), "sites": len(sites), "auto": n_auto, "table": n_tab, "undischarged": n_bad}
+
+
+CLIPPY_LINTS = ("unwrap_used", "expect_used", "panic", "unreachable", "indexing_slicing", "unimplemented", "todo")
+
+
+def clippy_crosscheck(ctx):
+    """Cross-reference only (never the verdict): every site clippy's restriction lints report in the library
+    must be present in the MIR inventory (inventory ⊇ clippy)."""
+    import json
+    import os
+    import subprocess
+    import engine
+    env = dict(os.environ)
+    env["CARGO_TARGET_DIR"] = os.path.join(engine.CACHE, "target-clippy")
+    env["CARGO_NET_OFFLINE"] = "true"
+    # force a re-run of the lint pass on the member crate
+    fp = os.path.join(env["CARGO_TARGET_DIR"], "debug", ".fingerprint")
+    if os.path.isdir(fp):
+        for d in os.listdir(fp):
+            if d.startswith("hyperdriver-"):
+                subprocess.run(["rm", "-rf", os.path.join(fp, d)])
+    cmd = ["cargo", "+nightly", "clippy", "--offline", "--lib", "--message-format=json", "--"] + sum([["-W", "clippy::" + l] for l in CLIPPY_LINTS], [])
+    r = subprocess.run(cmd, cwd=ctx.repo, env=env, stdout=subprocess.PIPE, stderr=subprocess.DEVNULL, text=True)
+    seen = set()
+    for line in r.stdout.splitlines():
+        try:
+            m = json.loads(line)
+        except ValueError:
+            continue
+        if m.get("reason") != "compiler-message":
+            continue
+        msg = m["message"]
+        code = (msg.get("code") or {}).get("code") or ""
+        if code.replace("clippy::", "") not in CLIPPY_LINTS:
+            continue
+        for sp in msg["spans"]:
+            if sp.get("is_primary"):
+                seen.add((code, sp["file_name"], sp["line_start"], sp["line_end"]))
+    if not seen:
+        return ctx.undecided("clippy|ran", "clippy produced no restriction-lint output (exit %s)" % r.returncode)
+    facts = ctx.facts("default")
+    inv = set()
+    for s in inventory(facts):
+        w = s.where()
+        f, _, l = w.rpartition(":")
+        inv.add((f, int(l) if l.isdigit() else -1))
+    missing = []
+    for (code, f, l0, l1) in sorted(seen):
+        if not any((f, l) in inv for l in range(l0, l1 + 1)):
+            missing.append("%s %s:%d" % (code, f, l0))
+    ctx.check(not missing, "clippy|inventory-superset", "the MIR panic inventory contains every one of the %d sites clippy's restriction lints report" % len(seen),
+              "sites reported by clippy but absent from the inventory: %s" % missing[:8])
